@@ -67,7 +67,7 @@ def checked_bulk_writes(prog, res):
                 sites = guards.guard_sites(f, guards._zero_failure)
             szan = f.sig_anchors(c["a"][2]) - {"k:0", "k:1"}
             doms = [g for g in sites if f.must_pass(via_edges={(g.bid, g.ok)}, targets=[(b, i)])]
-            szn = {a for a in szan if not a.startswith(("k:", "m:"))}
+            szn = {a for a in szan if not a.startswith(("k:", "m:", "s:"))}
             if szn:     # the test must be about the size being copied
                 ok = any(szn & (g.L | g.R) for g in doms)
             else:
